@@ -28,9 +28,10 @@ From Coercion.Resume Require Import Frame NoReexec ImgWf RepairSound C09Proofs.
    NotStarted sequence and the sequences of a NotStarted block are NotStarted, no block Running when the plan's own
    bypass group is Completed or its pre / post group Failed; a boolean, evaluated on every real crash image on every
    run), every deviation flag and every trace tr the resumed automaton accepts from the repair of I:
-   mon_noreexec I tr = true, i.e. no EvStart of a sequence action that is Completed / Failed in I or whose last
-   durable attempt has no error, no EvStart at all inside a sequence or block that is Completed / Failed in I, and
-   no EvStart at all when the plan is not durably Running.  No bound on shapes, images, traces.
+   mon_noreexec I tr = true, i.e. no EvStart of a sequence action that is Completed / Failed in I or that has ANY
+   durable attempt (a success, a plugin's error or the engine's timeout error: "only actions durably Running without
+   a durable result may be invoked again"), no EvStart at all inside a sequence or block that is Completed / Failed
+   in I, and no EvStart at all when the plan is not durably Running.  No bound on shapes, images, traces.
 
    FULL STATEMENT (c09_no_reexecution): the same for I = crash_image sh tr1 k of every trace tr1 accepted by
    coq/engine's automaton and every k.  What is missing for it is one lemma about coq/engine (frozen):
